@@ -10,49 +10,11 @@
 (*  - Emit = "none"   : property checking only.                             *)
 EXTENDS Chain, Json, SequencesExt
 
-CONSTANTS MaxSteps, MaxResub, MaxRestart, Emit, QKinds
+CONSTANTS MaxSteps, MaxResub, MaxRestart, Emit, QKinds,
+          StepQ      \* kinds of read answers recorded after EVERY step (reads interleaved with ingestion)
 
 VARIABLES hist, nres, nrst
 mvars == <<cvars, hist, nres, nrst>>
-
-Snap(r, n, f(_)) == [k \in 1 .. n |-> IF (k - 1) \in DOMAIN r THEN f(r[k - 1]) ELSE -9]
-SnapSt(r, n)     == [k \in 1 .. n |-> IF (k - 1) \in DOMAIN r THEN r[k - 1].st ELSE "-"]
-GetH(x) == x.height
-GetC(x) == x.cum
-
-Obs == [st  |-> SnapSt(rows', next'), ht |-> Snap(rows', next', GetH),
-        cum |-> Snap(rows', next', GetC), tip |-> TipOf(rows')]
-
-MCInit == Init /\ hist = <<>> /\ nres = 0 /\ nrst = 0
-
-MCSubmit ==
-  /\ Len(hist) < MaxSteps
-  /\ \E p \in ParentChoices(next), w \in Works, root \in RootChoices(next), f \in BOOLEAN :
-       /\ SubmitNew(p, w, root, f)
-       /\ hist' = Append(hist, [op |-> "add", id |-> next, parent |-> p, work |-> w, root |-> root,
-                                forb |-> f, res |-> result', dev |-> devused'] @@ Obs)
-  /\ UNCHANGED <<nres, nrst>>
-
-MCResubmit ==
-  /\ Len(hist) < MaxSteps /\ nres < MaxResub
-  /\ \E i \in 1 .. MaxN :
-       /\ Resubmit(i)
-       /\ hist' = Append(hist, [op |-> "resubmit", id |-> i, res |-> result', dev |-> ""] @@ Obs)
-  /\ nres' = nres + 1 /\ UNCHANGED nrst
-
-MCRestart ==
-  /\ Len(hist) < MaxSteps /\ nrst < MaxRestart /\ result # "restart" /\ next > 1
-  /\ Restart
-  /\ hist' = Append(hist, [op |-> "restart", res |-> "restart", dev |-> ""] @@ Obs)
-  /\ nrst' = nrst + 1 /\ UNCHANGED nres
-
-MCNext == MCSubmit \/ MCResubmit \/ MCRestart
-MCSpec == MCInit /\ [][MCNext]_mvars
-
-StateView == cvars
-RowsView  == <<rows, next>>
-
-Terminal == Len(hist) = MaxSteps \/ (next > MaxN /\ nres = MaxResub /\ nrst = MaxRestart)
 
 -----------------------------------------------------------------------------
 (* Expected-answer tables *)
@@ -93,6 +55,61 @@ QTable ==
   \o (IF "c08" \in QKinds THEN SetToSeq(QPages) ELSE <<>>)
   \o (IF "c13" \in QKinds THEN SetToSeq(QLoc) \o SetToSeq(QGetH) ELSE <<>>)
 
+
+\* the (smaller) table recorded after every step when StepQ is not empty
+SQByHash == {[k |-> "byhash", a |-> i, r |-> ByHash(i)] : i \in 0 .. next}
+SQVerify == {[k |-> "verify", a |-> [excess |-> 1, items |-> <<<<rows[i].root, rows[i].height>>>>],
+              r |-> Verify(<<<<rows[i].root, rows[i].height>>>>, 1)] : i \in Stored}
+SQPages  == {[k |-> "page", a |-> <<2, key>>, r |-> MerklePage(2, key)] : key \in {NoKey} \cup {rows[i].root : i \in Stored}}
+SQGetH   == {[k |-> "getheaders", a |-> [loc |-> <<l>>, stop |-> -1], r |-> GetHeaders({l}, -1, 2000)] : l \in Stored}
+StepTable ==
+     (IF "c04" \in StepQ THEN SetToSeq(SQByHash) \o SetToSeq(QTips) ELSE <<>>)
+  \o (IF "c02" \in StepQ THEN SetToSeq(SQVerify) ELSE <<>>)
+  \o (IF "c08" \in StepQ THEN SetToSeq(SQPages) ELSE <<>>)
+  \o (IF "c13" \in StepQ THEN SetToSeq(QLoc) \o SetToSeq(SQGetH) ELSE <<>>)
+
+-----------------------------------------------------------------------------
+Snap(r, n, f(_)) == [k \in 1 .. n |-> IF (k - 1) \in DOMAIN r THEN f(r[k - 1]) ELSE -9]
+SnapSt(r, n)     == [k \in 1 .. n |-> IF (k - 1) \in DOMAIN r THEN r[k - 1].st ELSE "-"]
+GetH(x) == x.height
+GetC(x) == x.cum
+
+Obs == [st  |-> SnapSt(rows', next'), ht |-> Snap(rows', next', GetH),
+        cum |-> Snap(rows', next', GetC), tip |-> TipOf(rows'),
+        q   |-> IF StepQ = {} THEN <<>> ELSE StepTable']
+
+MCInit == Init /\ hist = <<>> /\ nres = 0 /\ nrst = 0
+
+MCSubmit ==
+  /\ Len(hist) < MaxSteps
+  /\ \E p \in ParentChoices(next), w \in Works, root \in RootChoices(next), f \in BOOLEAN :
+       /\ SubmitNew(p, w, root, f)
+       /\ hist' = Append(hist, [op |-> "add", id |-> next, parent |-> p, work |-> w, root |-> root,
+                                forb |-> f, res |-> result', dev |-> devused'] @@ Obs)
+  /\ UNCHANGED <<nres, nrst>>
+
+MCResubmit ==
+  /\ Len(hist) < MaxSteps /\ nres < MaxResub
+  /\ \E i \in 1 .. MaxN :
+       /\ Resubmit(i)
+       /\ hist' = Append(hist, [op |-> "resubmit", id |-> i, res |-> result', dev |-> ""] @@ Obs)
+  /\ nres' = nres + 1 /\ UNCHANGED nrst
+
+MCRestart ==
+  /\ Len(hist) < MaxSteps /\ nrst < MaxRestart /\ result # "restart" /\ next > 1
+  /\ Restart
+  /\ hist' = Append(hist, [op |-> "restart", res |-> "restart", dev |-> ""] @@ Obs)
+  /\ nrst' = nrst + 1 /\ UNCHANGED nres
+
+MCNext == MCSubmit \/ MCResubmit \/ MCRestart
+MCSpec == MCInit /\ [][MCNext]_mvars
+
+StateView == cvars
+RowsView  == <<rows, next>>
+
+Terminal == Len(hist) = MaxSteps \/ (next > MaxN /\ nres = MaxResub /\ nrst = MaxRestart)
+
+-----------------------------------------------------------------------------
 EmitInv ==
   CASE Emit = "paths"  -> (Terminal => PrintT(ToJson([hist |-> hist])))
     [] Emit = "states" -> PrintT(ToJson([hist |-> hist, q |-> QTable]))
